@@ -143,6 +143,17 @@ func observeBoth(m *cors.Middleware, suite []vlib.Req) []string {
 	return append(a, observe(m, suite)...)
 }
 
+// observeOnOff is for a middleware whose debug mode is on and has just been through a call that must have kept it
+// on: the debug-on observations are taken first, before any SetDebug call could repair a stale piece of state;
+// then debug is switched off, the suite observed, and debug switched on again. Same layout as observeBoth.
+func observeOnOff(m *cors.Middleware, suite []vlib.Req) []string {
+	on := observe(m, suite)
+	m.SetDebug(false)
+	off := observe(m, suite)
+	m.SetDebug(true)
+	return append(off, on...)
+}
+
 // firstDiff returns the index of the first differing element (-1 if equal).
 func firstDiff(a, b []string) int {
 	if len(a) != len(b) {
